@@ -22,7 +22,7 @@ ASSUMPTIONS = [
     "Tree.children / Node.children are the trusted accessors the reference is computed from",
     "get_common_ancestor(a, b) may return a or b themselves (docstring: 'nearest node that contains self and other')",
 ]
-EXHAUSTIVE_NOTE = {"quick": "all ordered forests with <= 6 nodes", "thorough": "all ordered forests with <= 8 nodes"}
+EXHAUSTIVE_NOTE = {"quick": "all ordered forests with <= 6 nodes", "thorough": "all ordered forests with <= 9 nodes"}
 
 
 def nm(x):
@@ -197,7 +197,7 @@ def run(case, rec):
 
 
 def enum_cases(tier):
-    for spec in enumer.forests_upto(6 if tier == "quick" else 8):
+    for spec in enumer.forests_upto(6 if tier == "quick" else 9):
         yield {"spec": spec}
 
 
@@ -228,5 +228,5 @@ def hyp_cases(draw, tier):
 
 PARTS = [
     Part("exhaustive", run, enum=enum_cases),
-    Part("random-clones-eqsiblings", run, strategy=lambda tier: hyp_cases(tier), n={"quick": 200, "thorough": 20000}),
+    Part("random-clones-eqsiblings", run, strategy=lambda tier: hyp_cases(tier), n={"quick": 400, "thorough": 60000}),
 ]
